@@ -16,8 +16,11 @@ Parts (every script line goes through both sides and is compared line by line):
   strings      parse_string alone at random offsets (allocation length and raw bytes written are compared)
   printer      random trees (C strings; number texts from the implementation's own print_number) printed by both
   round trip   on the implementation alone: the text printed for every accepted input is parsed again and
-               must give the same tree (numbers compared as doubles, reported separately), consume the whole
-               text and print to the same text
+               must give the same tree - strings and structure exactly, every finite double bit for bit (F65
+               regression; only an infinity produced by strtod overflow may come back as `null`) - consume the
+               whole text and print to the same text
+  numbers      directed doubles (1-ulp neighbours of short decimals, extremes, -0.0) and random ones: print_number's
+               text must be a complete number token and strtod of it must be the identical double
 
 Classification of a difference (WORKERS.md step 3):
   * sanitizer report on the implementation  -> memory-safety failure, VIOLATION with the (shrunk) input
@@ -690,13 +693,16 @@ class Tie:
             elif not changes and printed2 != t:
                 self.rt_fail(part, src, hl, "printing is not idempotent: %s then %s" % (t, printed2))
             for a, b in changes:
-                if b is None:
+                nonfinite = ((a >> 52) & 0x7FF) == 0x7FF
+                if b is None and nonfinite:
+                    # strtod overflowed to an infinity (text like 1e999): print_number renders it as `null`
                     self.rt_null_numbers += 1
-                    self.rt_examples.setdefault("number_became_null", {"input": src, "bits": "%x" % a, "printed": t})
+                    self.rt_examples.setdefault("nonfinite_number_printed_as_null", {"input": src, "bits": "%x" % a, "printed": t})
                 else:
+                    # regression of F65 (fixed): a finite double must survive print then parse bit for bit
                     self.rt_inexact_numbers += 1
-                    self.rt_examples.setdefault("number_changed", {"input": src, "bits": "%x" % a, "bits_after": "%x" % b,
-                                                                   "printed": t})
+                    self.rt_fail(part, src, hl, "number-print-not-bit-exact: double %x comes back as %s (printed %s)" % (
+                        a, "null" if b is None else "%x" % b, t))
 
     def rt_fail(self, part, src_line, hl, what):
         self.diffs += 1
@@ -835,6 +841,50 @@ def run_cjson_tie(ctx, out):
     # number tokens: the double the driver computes for the token the implementation consumed (strtod oracle cross-check)
     T.cov["cjson_number_oracle_texts"] = len(bits)
 
+    # 6. numbers: print_number then parse_number on the implementation, bit for bit (F65 regression)
+    nb = set()
+    for txt in ("0.3", "0.1", "0.2", "1", "100", "0.7", "1e21", "1e22", "1e-7", "123456.789", "5e-324", "2.2250738585072014e-308",
+                "1.7976931348623157e308", "4503599627370496", "9007199254740992", "0.5", "3.141592653589793", "2147483647",
+                "1e15", "1e16", "1e17", "0.000001", "299792458", "6.02214076e23", "1.5", "-0.0", "0.0", "-1", "255", "65536"):
+        v = float(txt)
+        b0 = struct.unpack(">Q", struct.pack(">d", v))[0]
+        for d in (-2, -1, 0, 1, 2):
+            x = b0 + d
+            if 0 <= x < (1 << 64) and ((x >> 52) & 0x7FF) != 0x7FF:
+                nb.add(x)
+                nb.add(x ^ (1 << 63))
+    for i in range(20000 if thorough else 3000):
+        r = C.rng("cjson", "dbl", i)
+        x = rand_double_bits(r)
+        if ((x >> 52) & 0x7FF) != 0x7FF:
+            nb.add(x)
+    nb = sorted(nb)
+    hn = run_harness_chunk(binp, ["n %x" % b for b in nb])
+    T.lines += len(nb)
+    tok_re = re.compile(rb"^-?[0-9]+(\.[0-9]+)?(e[+-][0-9]+)?$")
+    plines = []
+    bad_shape = 0
+    for b, l in zip(nb, hn):
+        if not l.startswith("ok "):
+            T.report("numbers", "n %x" % b, "-", l)
+            continue
+        txt = C.unhex(l[3:])
+        if not tok_re.match(txt) or len(txt) > 25:
+            bad_shape += 1
+            T.rt_fail("numbers", "n %x" % b, l, "print_number's text %r for the finite double %x is not a plain number token" % (txt, b))
+        plines.append(("p " + hx(txt), b))
+    tr = T.batch("numbers", [x[0] for x in plines])
+    for (ln, b), (_, dl, hl) in zip(plines, tr):
+        if hl.startswith("ok "):
+            w = canon_h(hl)[0].split(" ")
+            got = parse_dump(w[2:])[0]
+            if got[0] != "N" or got[2] != b or int(w[1]) * 2 != len(ln) - 2:
+                T.rt_inexact_numbers += 1
+                T.rt_fail("numbers", "n %x" % b, hl, "number-print-not-bit-exact: print_number(%x) = %s parses back as %s" % (b, ln[2:], hl))
+        elif not hl.startswith("SAN"):
+            T.rt_fail("numbers", "n %x" % b, hl, "the text print_number produced for %x (%s) is rejected by the parser" % (b, ln[2:]))
+    T.cov["cjson_number_doubles_checked_bit_exact"] = len(nb)
+
     T.cov.update({
         "cjson_lines_total": T.lines,
         "cjson_disagreements": T.diffs,
@@ -842,7 +892,7 @@ def run_cjson_tie(ctx, out):
         "cjson_outcome_histogram": dict(sorted(T.hist.items())),
         "cjson_roundtrip_texts_checked": T.rt_checked,
         "cjson_roundtrip_numbers_not_bit_exact": T.rt_inexact_numbers,
-        "cjson_roundtrip_numbers_became_null": T.rt_null_numbers,
+        "cjson_roundtrip_nonfinite_numbers_printed_as_null": T.rt_null_numbers,
         "cjson_roundtrip_number_examples": T.rt_examples,
         "cjson_samples": T.samples[:9],
         "cjson_wall_s": round(time.time() - t0, 1),
